@@ -43,7 +43,31 @@ func Replay(c *Case, cov *Coverage) ([]Mismatch, int, error) {
 			return mm, i, nil
 		}
 	}
+	if mm := r.Quiesce(); len(mm) > 0 {
+		return mm, len(c.Ops) - 1, nil
+	}
 	return nil, -1, nil
+}
+
+// Quiesce (queued executor only) runs every queued task, one CleanUp and the tasks it queued, and
+// then demands that every atomic deletion event has been delivered to OnDeletion.
+func (r *Runner) Quiesce() []Mismatch {
+	if !r.Env.Cfg.Queued {
+		return nil
+	}
+	for _, op := range []Op{{Kind: OpRunTasks, Name: "RunTasks", Dur: 1 << 30}, {Kind: OpCleanUp, Name: "CleanUp"}, {Kind: OpRunTasks, Name: "RunTasks", Dur: 1 << 30}} {
+		op := op
+		if mm := r.Step(&op); len(mm) > 0 {
+			return mm
+		}
+	}
+	if n := len(r.M.unnotified); n > 0 {
+		return []Mismatch{{Class: "event", Detail: fmt.Sprintf("after every executor task ran, %d values reported to OnAtomicDeletion were never delivered to OnDeletion, e.g. %s", n, r.M.unnotified[0])}}
+	}
+	if len(r.Env.Queue) > 0 {
+		return []Mismatch{{Class: "event", Detail: "executor tasks keep being queued after quiescence"}}
+	}
+	return nil
 }
 
 // Generate runs a fresh case: operations are drawn online from the model state.
@@ -63,6 +87,9 @@ func Generate(prop string, prof *Profile, seed uint64, index, nops int, cov *Cov
 		if mm := r.Step(&c.Ops[len(c.Ops)-1]); len(mm) > 0 {
 			return c, mm, nil
 		}
+	}
+	if mm := r.Quiesce(); len(mm) > 0 {
+		return c, mm, nil
 	}
 	return c, nil, nil
 }
@@ -120,11 +147,11 @@ type PropSpec struct {
 }
 
 var Specs = map[string]*PropSpec{
-	"C01": {Profiles: []string{"mix", "expiry", "size", "load", "refresh", "stats", "sweep"}, Classes: []string{"*"}, Quick: 24000, Thorough: 2000000, MinOps: 80, MaxOps: 300,
+	"C01": {Profiles: []string{"mix", "expiry", "size", "load", "refresh", "stats", "sweep", "queued"}, Classes: []string{"*"}, Quick: 24000, Thorough: 2000000, MinOps: 80, MaxOps: 300,
 		Rule: "a generated operation sequence (config, ops) run against the model after every operation; non-trivial = at least 20 operations and at least one of: automatic removal, operation on an expired-unswept key, loader invocation; distinct = hash of (config, ops)"},
 	"C03": {Profiles: []string{"expiry"}, Classes: []string{"expired"}, Quick: 16000, Thorough: 1000000, MinOps: 60, MaxOps: 250,
 		Rule: "expiry-biased sequence (clock moved exactly onto deadlines, no CleanUp) where every public operation is applied to expired-but-unswept keys; non-trivial = at least 3 operations hit an expired-unswept key; distinct = hash of (config, ops)"},
-	"C07": {Profiles: []string{"size", "mix", "sweep"}, Classes: []string{"overflow", "bound"}, Quick: 16000, Thorough: 1000000, MinOps: 80, MaxOps: 400,
+	"C07": {Profiles: []string{"size", "mix", "sweep", "queued"}, Classes: []string{"overflow", "bound"}, Quick: 16000, Thorough: 1000000, MinOps: 80, MaxOps: 400,
 		Rule: "size-biased sequence; every Overflow/Expiration event is judged against the model's total weight / deadline at that moment; non-trivial = at least one automatic removal; distinct = hash of (config, ops)"},
 	"C10": {Profiles: []string{"load", "refresh"}, Classes: []string{"load"}, OpKinds: []int{OpGet, OpBulkGet, OpRefresh, OpBulkRefresh}, Quick: 16000, Thorough: 1000000, MinOps: 60, MaxOps: 200,
 		Rule: "load-biased sequence with every loader outcome and bulk shape; non-trivial = at least 3 loader invocations with 2 different outcomes; distinct = hash of (config, ops)"},
@@ -134,11 +161,11 @@ var Specs = map[string]*PropSpec{
 		Rule: "deadline-biased sequence; after every operation ExpiresAtNano/RefreshableAtNano of every key is compared with op time + calculator duration (saturating); non-trivial = at least 5 calculator consultations; distinct = hash of (config, ops)"},
 	"C13": {Profiles: []string{"sweep"}, Classes: []string{"sweep"}, Quick: 12000, Thorough: 800000, MinOps: 80, MaxOps: 400,
 		Rule: "sweep-biased sequence (TTLs ns..years, clock jumps up to many wheel revolutions, CleanUp); at each CleanUp every entry older than one tick must be gone and reported; non-trivial = at least one CleanUp that judged an expired entry; distinct = hash of (config, ops)"},
-	"C04": {Profiles: []string{"size"}, Classes: []string{"bound"}, Quick: 6000, Thorough: 400000, MinOps: 80, MaxOps: 400,
+	"C04": {Profiles: []string{"size", "queued"}, Classes: []string{"bound"}, Quick: 6000, Thorough: 400000, MinOps: 80, MaxOps: 400,
 		Rule: "sequential part: size-biased sequences, the weight total of the model's physical contents is compared with the maximum after every operation (same-goroutine executor, so maintenance has run)"},
-	"C05": {Profiles: []string{"size", "mix"}, Classes: []string{"views"}, Quick: 6000, Thorough: 400000, MinOps: 80, MaxOps: 400,
+	"C05": {Profiles: []string{"size", "mix", "queued"}, Classes: []string{"views"}, Quick: 6000, Thorough: 400000, MinOps: 80, MaxOps: 400,
 		Rule: "sequential part: EstimatedSize, WeightedSize, GetMaximum, All/Keys/Values/Hottest/Coldest compared with the model after operations"},
-	"C06": {Profiles: []string{"mix", "expiry", "size"}, Classes: []string{"event"}, Quick: 8000, Thorough: 500000, MinOps: 80, MaxOps: 300,
+	"C06": {Profiles: []string{"mix", "expiry", "size", "queued"}, Classes: []string{"event"}, Quick: 8000, Thorough: 500000, MinOps: 80, MaxOps: 300,
 		Rule: "sequential part: the exact multiset of OnAtomicDeletion/OnDeletion events of every operation (own effects with Replacement/Invalidation/Expiration causes, automatic removals) is compared with the model"},
 	"C20": {Profiles: []string{"stats", "load"}, Classes: []string{"stats"}, Quick: 10000, Thorough: 600000, MinOps: 80, MaxOps: 300,
 		Rule: "sequence with a stats recorder; Stats() compared with the model's tallies after every operation; non-trivial = at least 10 counted lookups and one load; distinct = hash of (config, ops)"},
